@@ -8,7 +8,7 @@
    fuel bounds only how much of the (possibly 2^64-long) run is unfolded: every
    statement holds for every fuel.  No axioms. *)
 From Coq Require Import ZArith List Bool.
-From GV Require Import Base.W64 Base.F64 Num.Model Num.Spec Num.ForLoop Num.ForProofs Num.ForClip.
+From GV Require Import Base.W64 Base.F64 Num.Model Num.Spec Num.ForLoop Num.ForProofs Num.ForClip Num.ForMachine.
 Import ListNotations.
 Open Scope Z_scope.
 
@@ -88,3 +88,52 @@ Theorem C16_non_number_error : forall fuel start limit step,
      for_im_val fuel start limit step = FVRes (for_im fuel a b c)).
 Proof. exact non_number_error. Qed.
 Print Assumptions C16_non_number_error.
+
+(* ---- the compiled shape (prepfor; jumpifnot; copy; body; advfor; jumpif) as an abstract machine
+   (Num/ForMachine.v), for arbitrary effectful control expressions e1 e2 e3 and an arbitrary body
+   (which may assign to the loop variable) over any user state U ---- *)
+Theorem C16_expressions_evaluated_once : forall (U : Type) (e1 e2 e3 : U -> num * U) body u k,
+  let s := run U e1 e2 e3 body k (init U u) in
+  (ev1 U s <= 1 /\ ev2 U s <= 1 /\ ev3 U s <= 1 /\ (3 <= pc U s -> ev1 U s = 1 /\ ev2 U s = 1 /\ ev3 U s = 1))%nat.
+Proof. exact expressions_evaluated_once. Qed.
+Print Assumptions C16_expressions_evaluated_once.
+
+(* hidden registers, control flow, evaluation counts and the values handed to the body are the same for
+   any two bodies: assigning to the loop variable does not disturb the iteration *)
+Theorem C16_body_assignment_harmless : forall (U : Type) (e1 e2 e3 : U -> num * U) body1 body2 u k,
+  agree U (run U e1 e2 e3 body1 k (init U u)) (run U e1 e2 e3 body2 k (init U u)).
+Proof. exact body_assignment_harmless. Qed.
+Print Assumptions C16_body_assignment_harmless.
+
+(* and those values are exactly the ones of for_im (hence, by the theorems above, the manual's) *)
+Theorem C16_machine_runs_for_im : forall (U : Type) (e1 e2 e3 : U -> num * U) body u m,
+  let '(a, u1) := e1 u in let '(b, u2) := e2 u1 in let '(c, u3) := e3 u2 in
+  let t := run U e1 e2 e3 body (5 + 4 * m) (init U u) in
+  match for_im m a b c with
+  | FErrZero => err U t = true /\ seen U t = []
+  | FRun vs fin => err U t = false /\ seen U t = vs /\ (fin = true -> pc U t = 9%nat)
+  end.
+Proof. exact machine_runs_for_im. Qed.
+Print Assumptions C16_machine_runs_for_im.
+
+(* every loop on numbers (integer loop with any limit, float loop) is the manual's loop *)
+Theorem C16_for_im_is_manual : forall fuel a b c, num_ok a -> num_ok b -> num_ok c ->
+  for_im fuel a b c = for_s fuel a b c.
+Proof. exact for_im_is_manual. Qed.
+Print Assumptions C16_for_im_is_manual.
+
+(* Numeric strings as control values.  NOT a theorem of the code as it stands: a string that denotes an
+   integer in the start or step position gives an integer loop in golua (ToNumberValue), a float loop by the
+   manual and in PUC-Lua (for i="1",2 -> 1.0, 2.0).  string_loop_defect start step =
+   (start or step is such a string) && both denote integers.  Open finding C16-string-start-step-integer-loop. *)
+Theorem C16_string_operand_refuted :
+  exists fuel start limit step, fv_ok start /\ fv_ok limit /\ fv_ok step /\
+    for_im_val fuel start limit step <> for_s_val fuel start limit step.
+Proof. exact string_operand_refuted. Qed.
+Print Assumptions C16_string_operand_refuted.
+
+Theorem C16_string_operand_partial : forall fuel start limit step, fv_ok start -> fv_ok limit -> fv_ok step ->
+  string_loop_defect start step = false ->
+  for_im_val fuel start limit step = for_s_val fuel start limit step.
+Proof. exact string_operand_partial. Qed.
+Print Assumptions C16_string_operand_partial.
